@@ -16,8 +16,8 @@ Wrap(t) == IF Which = "c12qq" THEN ListV(<<SymV("quasiquote"), t>>) ELSE t
 
 ASSUME InitRegisters
 ASSUME SetContext(CtxForms)
-ASSUME TLCSet(3, G)
-ASSUME TLCSet(4, CountTab(G, MaxSize, <<>>))
+ASSUME TLCSet(3, Norm(G))
+ASSUME TLCSet(4, Norm(CountTab(G, MaxSize, <<>>)))
 
 VARIABLES sz, idx, ph
 Init == ph = 0 /\ sz \in 1..MaxSize /\ idx \in 0..(TLCGet(4)[sz] - 1)
